@@ -144,6 +144,8 @@ check("C13", "other",
       "command of its own — no backslash continuation into it (1–2 symbolic expressions, replayed through the real executor and bash). "
       "render_output applies exactly the documented transformations (CR LF unless keep_crlf, ANSI stripping iff set), and SubprocessRunner::run passes "
       "both the output and the error output of the process through it (recording stub of the subprocess crate; a real printf through the runner). "
+      "BashScriptExecutor::execute_all (process runner stubbed) gives every test case exactly the bytes of its section — CR, ANSI sequences, missing final newline — "
+      "for 1..3 test cases under every keep_crlf / strip_ansi_escaping setting. "
       "Pipes, merge order of stdout/stderr, megabyte payloads and real exit codes of processes are not claimed.",
       E2_NOTE, E2_TECH, "E2", "DESIGN.md §3 C13")
 
